@@ -94,6 +94,81 @@ def scenarios(tier, rng):
 B = 1 << 64
 
 
+def jebelean_boundary_prefixes(rng, count):
+    """Prefix pairs (a0, a1), a0 in [2^63, 2^64), built BACKWARDS from a chosen quotient sequence so that the last
+    remainders sit exactly on (or one off) the boundaries of the Jebelean selection tests of from_u64_prefix:
+    a3 = u3 + delta, a2 - a3 = v3 + v2 + delta, a1 - a2 = u2 + u1 + delta (and the odd-parity mirror images), and the
+    two early-exit tests a2 = v2 + delta, a1 - a2 = u2 + delta.  Uniform prefixes meet these with probability ~2^-32.
+    The construction only aims the generator; what the matrices must satisfy is decided by Kernels.tla."""
+    LIMIT = 1 << 32
+    out = []
+
+    def run_back(qs, a2, a3):
+        r_next, r = a3, a2
+        for q in reversed(qs):
+            r_next, r = r, q * r + r_next
+        # after the loop: r = r_0, r_next = r_1
+        return r, r_next
+
+    tries = 0
+    per_kind = [0, 0, 0, 0]
+    while len(out) < count and tries < count * 2000:
+        tries += 1
+        m = rng.randrange(2, 40)
+        qs = [rng.choice([1, 1, 1, 2, 2, 3, 5]) for _ in range(m)]
+        # cofactors forward: k_{i+1} = k_{i-1} + q_i k_i
+        ks = [(1, 0), (0, 1)]
+        for q in qs:
+            ks.append((ks[-2][0] + q * ks[-1][0], ks[-2][1] + q * ks[-1][1]))
+        (u1, v1), (u2, v2), (u3, v3) = ks[-3], ks[-2], ks[-1]
+        if max(u3, v3) >= LIMIT:
+            continue
+        kind = min(range(4), key=lambda k: per_kind[k]) if rng.random() < 0.7 else rng.randrange(4)
+        delta = rng.choice([-1, 0, 0, 1])
+        if kind == 0:
+            a3 = (u3 if m % 2 == 0 else v3) + delta
+            a2 = None
+        elif kind == 1:
+            gap = ((v3 + v2) if m % 2 == 0 else (u3 + u2)) + delta
+            a3 = LIMIT - 1 - rng.randrange(0, max(min(gap, LIMIT // 2), 1))
+            a2 = a3 + gap
+        elif kind == 2:
+            qs[-1] = 1
+            ks = [(1, 0), (0, 1)]
+            for q in qs:
+                ks.append((ks[-2][0] + q * ks[-1][0], ks[-2][1] + q * ks[-1][1]))
+            (u1, v1), (u2, v2), (u3, v3) = ks[-3], ks[-2], ks[-1]
+            a3 = ((u2 + u1) if m % 2 == 0 else (v2 + v1)) + delta
+            a2 = None
+        else:
+            a3 = rng.randrange(0, LIMIT)
+            a2 = None
+        if not (0 <= a3 < LIMIT):
+            continue
+        if a2 is None:
+            A, _ = run_back(qs, 1, 0)
+            C, _ = run_back(qs, 0, 1)
+            if A == 0:
+                continue
+            a2 = ((1 << 63) + rng.getrandbits(62) - C * a3) // A
+        if a2 < LIMIT or a2 <= a3:
+            continue
+        a0, a1 = run_back(qs, a2, a3)
+        if (1 << 63) <= a0 < (1 << 64) and a1 <= a0:
+            out.append((a0, a1))
+            per_kind[kind] += 1
+    # early-exit tests: a2 = a0 - q a1 < LIMIT at once
+    for i in range(count // 3 + 6):
+        a1 = rng.randrange(LIMIT, LIMIT << 1) if i >= 6 else LIMIT + (i % 3)
+        q = ((1 << 63) + rng.getrandbits(62)) // a1
+        for a2 in (q - 1, q, q + 1, a1 - 1, a1 - 2, a1 - 3, 0, 1):
+            if 0 <= a2 < min(LIMIT, a1):
+                a0 = q * a1 + a2
+                if (1 << 63) <= a0 < (1 << 64):
+                    out.append((a0, a1))
+    return out
+
+
 def lehmer_scenarios(tier, rng):
     """LehmerMatrix::{from, from_u64, from_u64_prefix, from_u128_prefix, apply, apply_u128, compose}."""
     quick = tier == "quick"
@@ -144,6 +219,7 @@ def lehmer_scenarios(tier, rng):
         else:
             b0 = (1 << 32) + rng.randrange(-3, 4)
         pre.append((a0, max(0, min(b0, a0))))
+    pre += jebelean_boundary_prefixes(rng, 150 if quick else 2500)
     for a0, b0 in dict.fromkeys(pre):
         ex = exts(0)[:1] + exts(1) + exts(64) + exts(200 if not quick else 70)
         sc.append({"g": "kern", "op": "klehmer_prefix", "a": tobytes(a0), "b": tobytes(b0), "ext": ex})
